@@ -17,6 +17,7 @@ import (
 	"os"
 	"os/exec"
 	"path/filepath"
+	"regexp"
 	"runtime"
 	"sort"
 	"strconv"
@@ -138,18 +139,25 @@ func diffCanon(a, b string) string {
 	return strings.Join(out, "\n")
 }
 
-// closureOnly: every differing backtrace end-point has its origin inside an anonymous function (name contains '$')
-func closureOnly(diff string) bool {
-	if diff == "" {
-		return false
+var srcOriginRe = regexp.MustCompile(`\(source_?\d*\)`)
+
+// sourceProjection keeps the backtrace end-points whose origin lies in a source function.
+func sourceProjection(canon string) string {
+	i := strings.Index(canon, "|endpoints:")
+	if i < 0 {
+		return canon
 	}
-	for _, l := range strings.Split(diff, "\n") {
-		i := strings.LastIndex(l, "<=")
-		if i < 0 || !strings.Contains(l[i:], "$") {
-			return false
+	rest := canon[i+len("|endpoints:"):]
+	if k := strings.Index(rest, "|panic:"); k >= 0 {
+		rest = rest[:k]
+	}
+	var keep []string
+	for _, e := range strings.Split(rest, ";") {
+		if k := strings.LastIndex(e, "<="); k >= 0 && srcOriginRe.MatchString(e[k:]) {
+			keep = append(keep, e)
 		}
 	}
-	return true
+	return strings.Join(keep, ";")
 }
 
 // ---- F14 tie family: a parameter reached from inside the callee and from the call site
@@ -294,6 +302,10 @@ func main() {
 	for _, t := range backTD {
 		jobs = append(jobs, job{"backtrace", "testdata:" + t, t})
 	}
+	if os.Getenv("C06_GEN_ONLY") != "" {
+		fmt.Println("programs written to", work)
+		return
+	}
 	self, _ := os.Executable()
 	_, tsErr := exec.LookPath("taskset")
 	nproc := runtime.NumCPU()
@@ -375,9 +387,17 @@ func main() {
 				content += "--- main.go ---\n" + string(src)
 			}
 			fkey := "nondet-" + key
-			if j.kind == "backtrace" && closureOnly(diffCanon(a, b)) {
-				// same shape as the recorded finding C06a: every differing end-point is a node of an anonymous function
-				fkey = "nondet-backtrace/closure-write-freevar"
+			if j.kind == "backtrace" && strings.HasPrefix(j.spec, "dir:") {
+				// shape of the recorded findings C06a/C06b: the runs agree on every origin in a source function
+				same := true
+				for _, h := range hs {
+					if sourceProjection(canon[h]) != sourceProjection(a) {
+						same = false
+					}
+				}
+				if same && sourceProjection(a) != "" {
+					fkey = "nondet-backtrace/non-source-origins"
+				}
 			}
 			rep.Fail(fkey, fmt.Sprintf("%s of %s gives %d different results on identical inputs: %s", j.kind, j.name, len(canon), strings.SplitN(diffCanon(a, b), "\n", 2)[0]), []byte(content), false)
 		} else if len(rep.Samples) < 6 {
@@ -386,25 +406,25 @@ func main() {
 			}
 		}
 	}
-	// fixed corpus first: the recorded finding C06a
-	{
-		cdir := filepath.Join(lib.Root(), "corpus", "findings", "C06a_backtrace_closure_nondet")
+	// fixed corpus first: the recorded findings C06a, C06b
+	for _, cname := range []string{"C06a_backtrace_closure_nondet", "C06b_backtrace_constant_origin_nondet"} {
+		cdir := filepath.Join(lib.Root(), "corpus", "findings", cname)
 		if p, err := loadSpec("dir:" + cdir); err == nil {
 			canon, count, _ := repeat(p, "backtrace", 40)
-			rep.Case("corpus/C06a")
+			rep.Case("corpus/" + cname)
 			if len(canon) > 1 {
 				var parts []string
 				for h, c := range canon {
 					parts = append(parts, fmt.Sprintf("%s x%d: %s", h, count[h], c))
 				}
 				sort.Strings(parts)
-				rep.Fail("nondet-backtrace/closure-write-freevar", fmt.Sprintf("backtrace of corpus/findings/C06a gives %d different results in 40 runs", len(canon)),
+				rep.Fail("nondet-backtrace/non-source-origins", fmt.Sprintf("backtrace of corpus/findings/%s gives %d different results in 40 runs", cname, len(canon)),
 					[]byte(strings.Join(parts, "\n")), false)
 			} else {
-				rep.Notes = append(rep.Notes, "corpus C06a: 40 runs gave one result this time")
+				rep.Notes = append(rep.Notes, "corpus "+cname+": 40 runs gave one result this time")
 			}
 		} else {
-			rep.Notes = append(rep.Notes, "corpus C06a did not load: "+err.Error())
+			rep.Notes = append(rep.Notes, "corpus "+cname+" did not load: "+err.Error())
 		}
 	}
 	for _, j := range jobs {
